@@ -217,7 +217,7 @@ def finish(pid, tier, seed, results, level, technique, assumptions, t0, extra_co
                 known_hits[hit] = known_hits.get(hit, 0) + 1
                 continue
             key = (v['kind'], v['msg'])
-            if key in seen_sig and len(seen_sig) > 0: continue   # one replay per distinct message per job
+            if key in seen_sig or len(seen_sig) >= 3: continue   # one replay per distinct message, at most three per job
             seen_sig.add(key)
             h = hashlib.sha1(sig.encode()).hexdigest()[:12]
             path = os.path.join(rdir, '%s_%s.txt' % (r['name'].replace('/', '_'), h))
